@@ -1,0 +1,7 @@
+//go:build verif
+
+package store
+
+// Verification harness for gvc (/verif): compiled only with the build tag
+// "verif", never called. Property C24: sequence numbers survive the key codec.
+func verifSeqRoundTrip(seq uint64) uint64 { return unmarshalSeq(marshalSeq(seq)) }
